@@ -33,13 +33,20 @@ pub(crate) struct CustomTypeParser<'result> {
     /// When we encounter a `FrozenType(...)`, this field is set to true for the duration
     /// of parsing the inner type, and then set back to false.
     frozen_context: bool,
+    /// Current nesting depth of `do_parse` (the parser recurses once per nesting level).
+    depth: usize,
 }
+
+/// Maximum nesting depth of a custom type name accepted from the wire
+/// (real schemas nest a handful of levels).
+const MAX_CUSTOM_TYPE_NESTING_DEPTH: usize = 128;
 
 impl<'result> CustomTypeParser<'result> {
     fn new(input: &'result str) -> CustomTypeParser<'result> {
         Self {
             parser: ParserState::new(input),
             frozen_context: false,
+            depth: 0,
         }
     }
 
@@ -362,6 +369,19 @@ impl<'result> CustomTypeParser<'result> {
     }
 
     fn do_parse(&mut self) -> Result<ColumnType<'result>, CustomTypeParseError> {
+        // Bound the recursion: a nesting level costs only a few bytes of the type name.
+        if self.depth >= MAX_CUSTOM_TYPE_NESTING_DEPTH {
+            return Err(CustomTypeParseError::NestingTooDeep(
+                MAX_CUSTOM_TYPE_NESTING_DEPTH,
+            ));
+        }
+        self.depth += 1;
+        let result = self.do_parse_nested();
+        self.depth -= 1;
+        result
+    }
+
+    fn do_parse_nested(&mut self) -> Result<ColumnType<'result>, CustomTypeParseError> {
         self.skip_blank();
 
         let mut name = self.read_next_identifier();
